@@ -121,6 +121,7 @@ class CategoricalInstance(PrefLibInstance):
                 self.multiplicity[ballot] += 1
                 if ballot not in new_pref_list:
                     new_pref_list.append(ballot)
+        self.preferences = new_pref_list
 
     def recompute_cardinality_param(self):
         """Recomputes the basic cardinality parameters based on the preferences list in the
